@@ -137,6 +137,8 @@ class Run(apiworld.ApiWorld):
         guard = 0
         while not self.init_result and guard < 10000:
             guard += 1
+            if len(self.net.conns) > 40:
+                break           # a re-connection storm (dozens of connections within one handshake): give up, it is judged below
             if L.has_ready():
                 L.turn()
                 continue
